@@ -30,6 +30,10 @@ def run(repo: Repo, tier: str, res: CheckResult, seed: int = 0) -> None:
     structural_coercers(repo, res)
     unlinked_fields(repo, res)
     recipe_tail(repo, res)
+    generic_shapes(repo, res)
+    _shared_cache_rule(repo, res)
+    from .. import genprog
+    genprog.c14_checks(repo, tier, res, seed)
     res.assumptions = list(ASSUMPTIONS)
 
 
@@ -56,7 +60,7 @@ def _generic_exclusion(test: ast.expr) -> Set[str]:
     return sides
 
 
-def classify_justification(repo: Repo, m: ModuleInfo, fn: ast.FunctionDef, path) -> Tuple[Optional[str], str]:
+def classify_justification(repo: Repo, m: ModuleInfo, fn: ast.FunctionDef, path, owner: str = "") -> Tuple[Optional[str], str]:
     """(justification or None, description of the path condition)"""
     conds = [(s[1], s[2]) for s in path if s[0] == "test"]
     desc = " and ".join(("" if v else "not ") + f"({norm(t)})" for t, v in conds)
@@ -91,7 +95,12 @@ def classify_justification(repo: Repo, m: ModuleInfo, fn: ast.FunctionDef, path)
                 if norm(r) == "as_is_stub_with_ctx" or norm(l) == "as_is_stub_with_ctx":
                     other = l if norm(r) == "as_is_stub_with_ctx" else r
                     if isinstance(other, ast.Name):
-                        return "J5:inner-as-is", desc
+                        # an as-is inner coercer justifies handing the value over only when the wrapper adds no container of
+                        # its own (Optional); for dict / iterable wrappers the origins may differ (Mapping -> dict)
+                        if owner == "OptionalCoercerProvider":
+                            return "J5:inner-as-is", desc
+                        return None, desc + "  [as-is element coercers do not make the CONTAINER types equal: the origin of " \
+                                            "the source (e.g. Mapping, Sequence) may differ from the destination's (dict, list)]"
             # J2: subset / membership over full types
             if isinstance(c, ast.Call) and isinstance(c.func, ast.Attribute) and c.func.attr in ("issubset", "__le__"):
                 a, b = expand(c.func.value), expand(c.args[0]) if c.args else None
@@ -133,7 +142,7 @@ def as_is_soundness(repo: Repo, res: CheckResult) -> None:
             if r.value is None or norm(r.value) != "as_is_stub_with_ctx":
                 continue
             n += 1
-            just, desc = classify_justification(repo, m, fn, path)
+            just, desc = classify_justification(repo, m, fn, path, ci.name)
             res.evaluated(f"asis:{ci.name}:{desc}", True)
             res.sample({"provider": ci.name, "path_condition": desc, "justification": just}, limit=12)
             if just is None:
@@ -332,3 +341,43 @@ def recipe_tail(repo: Repo, res: CheckResult) -> None:
     # order of as-is providers: structural coercers must come before the as-is fallbacks
     names = [norm(e.func) for e in elts if isinstance(e, ast.Call)]
     res.sample({"conversion_recipe": names})
+
+
+def generic_shapes(repo: Repo, res: CheckResult) -> None:
+    """the model coercer compares field types of the two shapes: they must be the generic-RESOLVED shapes on every path
+    (a class that inherits from Page[int] still has fields typed T in its raw shape)"""
+    m = repo.mod("conversion/model_coercer_provider")
+    ci = m.classes.get("ModelCoercerProvider")
+    if ci is None:
+        raise AnalysisError("anchor vanished: ModelCoercerProvider")
+    n = 0
+    for mname, fn in ci.methods.items():
+        for c in ast.walk(fn):
+            if isinstance(c, ast.Call) and any("ShapeRequest" in norm(x) for x in ast.walk(c)) and isinstance(c.func, ast.Attribute) \
+                    and c.func.attr in ("provide", "mandatory_provide", "delegating_provide"):
+                res.add(Finding("C14", "SHAPE.not-generic-resolved", m.rel, f"ModelCoercerProvider.{mname}", norm(c)[:100],
+                                "the shape is requested without generic resolution: type variables of inherited parametrised "
+                                "bases stay unsubstituted, T compares equal to T and IntPage -> StrPageDTO is accepted as is", c.lineno))
+        for r in [x for x in ast.walk(fn) if isinstance(x, ast.Return) and x.value is not None and "shape" in mname]:
+            n += 1
+            res.evaluated(f"generic-shape:{mname}:{norm(r.value)[:40]}", True)
+            v = r.value
+            names = {norm(x.func) for x in ast.walk(v) if isinstance(x, ast.Call)}
+            via_helper = any(nm.startswith("self._fetch") for nm in names)
+            if "provide_generic_resolved_shape" not in names and not via_helper and not isinstance(v, (ast.Tuple, ast.Name)):
+                res.add(Finding("C14", "SHAPE.not-generic-resolved", m.rel, f"ModelCoercerProvider.{mname}", norm(r)[:100],
+                                "a shape is returned that did not go through provide_generic_resolved_shape", r.lineno))
+    res.count("SHAPE.shape-returns", n, 2)
+
+
+def _shared_cache_rule(repo: Repo, res: CheckResult) -> None:
+    """shared rule with C11 (clone discipline + facade caches) restricted to the conversion facade"""
+    from .c11 import clone_discipline, facade_caches
+    sub = CheckResult("C11")
+    clone_discipline(repo, sub)
+    facade_caches(repo, sub)
+    res.evaluated("facade:conversion-cache-ownership", True)
+    for f in sub.findings:
+        if "conversion/" in f.file:
+            res.add(Finding("C14", "FACADE.refusal-bypassed-by-shared-cache", f.file, f.qualname, f.construct,
+                            "a converter cache shared between a conversion retort and its clones (extend/replace, the throw-away retort of a per-call recipe) hands a converter built under another recipe to a request that must be refused (unlinked field, missing coercer): " + f.message[:200], f.line))
